@@ -495,7 +495,7 @@ class Translator:
             if f.id in env and env[f.id] == "fun":
                 if len(args) != 1:
                     raise Refusal("function parameter with arity != 1")
-                return f"({san(f.id)} {self.expr(args[0], d, env)})"
+                return f"({san(self.tname(f.id))} {self.expr(args[0], d, env)})"
             if f.id in self.known and (self.known[f.id].get("pykinds") is not None
                                        and (any(k not in ("num", "fun") for _, k in self.known[f.id]["pykinds"])
                                             or any(isinstance(a, ast.Starred) for a in args))):
@@ -673,11 +673,15 @@ class Translator:
     # ---------------------------------------------------------- scalar-versus-array glue
     def scalar_test(self, e):
         """the parameter p when the test asks whether the ARGUMENT p is a scalar (not an array):
-        isinstance(p, Number) / isinstance(p, (int, float)) / np.isscalar(p) / np.ndim(p) == 0, or a flag assigned once
-        from such a test.  Pointwise these tests say nothing about the value — both paths must be the same function."""
+        isinstance(p, Number) / isinstance(p, (int, float)) / np.isscalar(p) / np.ndim(p) == 0, an `or` of such tests of
+        the same p, or a flag assigned once from such a test.  Pointwise these tests say nothing about the value — both paths must be the same function."""
         params = [p for p, k in getattr(self, "pykinds", []) if k == "num"]
         if isinstance(e, ast.Name) and e.id in getattr(self, "sflags", {}):
             return self.sflags[e.id]
+        if isinstance(e, ast.BoolOp) and isinstance(e.op, ast.Or):
+            # `isinstance(p, Number) or np.ndim(p) == 0`: a disjunction of scalar tests of the SAME argument
+            ps = {self.scalar_test(v) for v in e.values}
+            return ps.pop() if len(ps) == 1 and None not in ps else None
         if isinstance(e, ast.Call) and isinstance(e.func, ast.Name) and e.func.id == "isinstance" and len(e.args) == 2 \
                 and not e.keywords and isinstance(e.args[0], ast.Name) and e.args[0].id in params \
                 and e.args[0].id not in getattr(self, "reassigned_before", set()):
@@ -707,15 +711,19 @@ class Translator:
             return True
         return e.func.attr == "atleast_1d" and isinstance(a, ast.Name) and a.id == p
 
-    def scalar_branch_is_glue(self, st, p, fname, params):
-        """the body of `if <p is a scalar>:` is pure scalar->array glue:
-          (a) it only wraps p into a 1-element array (`p = np.asarray([p])`), or
+    def scalar_branch_is_glue(self, body, array_br, p, fname, params):
+        """the branch taken when the argument p is a scalar is pure scalar->array glue:
+          (a) it only wraps p into a 1-element array (`p = np.asarray([p])`; no other branch), or
           (b) it delegates to the function itself on the wrapped argument and takes the only element:
-              `ret_ = f(np.asarray([p]))[0]` (the other arguments passed through unchanged)."""
-        body = st.body
-        if body and all(isinstance(b, ast.Assign) and len(b.targets) == 1 and isinstance(b.targets[0], ast.Name)
-                        and b.targets[0].id == p and self.is_singleton_wrap(b.value, p) for b in body):
+              `ret_ = f(np.asarray([p]))[0]` (the other arguments passed through unchanged), or
+          (c) it IS the array branch, run on the wrapped argument, with `[0]` taken from the result
+              (syntactically: equal after erasing 1-element wraps, the final `[0]`, copies `a = b`, and
+              renaming locals consistently)."""
+        if body and not array_br and all(isinstance(b, ast.Assign) and len(b.targets) == 1 and isinstance(b.targets[0], ast.Name)
+                                         and b.targets[0].id == p and self.is_singleton_wrap(b.value, p) for b in body):
             return "wrap"
+        if body and array_br and self.same_modulo_wrap(body, array_br):
+            return "same code on the wrapped argument"
         if len(body) == 1 and isinstance(body[0], ast.Assign) and len(body[0].targets) == 1 \
                 and isinstance(body[0].targets[0], ast.Name) and body[0].targets[0].id.startswith(normalize.RET):
             v = body[0].value
@@ -731,6 +739,64 @@ class Translator:
                 if ok:
                     return "delegate"
         return None
+
+    def same_modulo_wrap(self, scalar_br, array_br):
+        import copy
+        tr = self
+
+        class Erase(ast.NodeTransformer):
+            def visit_Call(self, node):
+                self.generic_visit(node)
+                if isinstance(node.func, ast.Attribute) and isinstance(node.func.value, ast.Name) and node.func.value.id == "np" \
+                        and node.func.attr in ("asarray", "array", "asanyarray", "atleast_1d") and len(node.args) == 1 \
+                        and not node.keywords and isinstance(node.args[0], (ast.List, ast.Tuple)) and len(node.args[0].elts) == 1 \
+                        and isinstance(node.args[0].elts[0], ast.Name):
+                    return node.args[0].elts[0]
+                return node
+        S = [Erase().visit(copy.deepcopy(b)) for b in scalar_br]
+        A = [copy.deepcopy(b) for b in array_br]
+        # the final unwrap: ret_ = V[0]  ->  ret_ = V
+        unwrapped = False
+        for b in S:
+            if isinstance(b, ast.Assign) and len(b.targets) == 1 and isinstance(b.targets[0], ast.Name) \
+                    and b.targets[0].id.startswith(normalize.RET) and isinstance(b.value, ast.Subscript) \
+                    and isinstance(b.value.slice, ast.Constant) and b.value.slice.value == 0 and isinstance(b.value.value, ast.Name):
+                b.value = b.value.value
+                unwrapped = True
+
+        def propagate(sts):
+            counts = {}
+            for b in sts:
+                for nd in ast.walk(b):
+                    if isinstance(nd, ast.Name) and isinstance(nd.ctx, ast.Store):
+                        counts[nd.id] = counts.get(nd.id, 0) + 1
+            out, sub = [], {}
+            for b in sts:
+                b = normalize.substitute([b], {k: ast.Name(id=v, ctx=ast.Load()) for k, v in sub.items()})[0]
+                if isinstance(b, ast.Assign) and len(b.targets) == 1 and isinstance(b.targets[0], ast.Name) \
+                        and isinstance(b.value, ast.Name) and counts.get(b.targets[0].id) == 1 \
+                        and counts.get(b.value.id, 0) == 0 and not b.targets[0].id.startswith(normalize.RET):
+                    sub[b.targets[0].id] = b.value.id
+                    continue
+                out.append(b)
+            return out
+
+        def alpha(sts):
+            ren = {}
+            for b in sts:
+                for nd in ast.walk(b):
+                    if isinstance(nd, ast.Name) and isinstance(nd.ctx, ast.Store) and nd.id not in ren \
+                            and not nd.id.startswith(normalize.RET):
+                        ren[nd.id] = f"v{len(ren)}_"
+            out = []
+            for b in sts:
+                b = copy.deepcopy(b)
+                for nd in ast.walk(b):
+                    if isinstance(nd, ast.Name) and nd.id in ren:
+                        nd.id = ren[nd.id]
+                out.append(ast.dump(b))
+            return out
+        return alpha(propagate(S)) == alpha(propagate(A))
 
     def cond(self, e, d, env):
         """boolean expression: Prop (real, classical if) or Bool (float)"""
@@ -1343,17 +1409,19 @@ class Translator:
                     self.sflags[st.targets[0].id] = self.scalar_test(st.value)
                     notes.append(f"scalar/array flag: {st.targets[0].id} = {ast.unparse(st.value)}")
                     continue
-                if isinstance(st, ast.If) and self.scalar_test(st.test) is not None:
-                    p = self.scalar_test(st.test)
-                    how = self.scalar_branch_is_glue(st, p, self.py_name, [q for q, _ in self.pykinds])
+                stest, sneg = (st.test, False) if isinstance(st, ast.If) else (None, False)
+                if isinstance(stest, ast.UnaryOp) and isinstance(stest.op, ast.Not):
+                    stest, sneg = stest.operand, True
+                if isinstance(st, ast.If) and self.scalar_test(stest) is not None:
+                    p = self.scalar_test(stest)
+                    scalar_br, array_br = (st.orelse, st.body) if sneg else (st.body, st.orelse)
+                    how = self.scalar_branch_is_glue(scalar_br, array_br, p, self.py_name, [q for q, _ in self.pykinds])
                     if how is None:
-                        raise Refusal(f"`if {ast.unparse(st.test)}`: the scalar branch is neither a 1-element wrap of {p} nor the "
-                                      f"delegation {self.py_name}(np.asarray([{p}]))[0]")
-                    if how == "wrap" and st.orelse:
-                        raise Refusal(f"`if {ast.unparse(st.test)}`: wrap of {p} with an else branch")
+                        raise Refusal(f"`if {ast.unparse(st.test)}`: the scalar branch is neither a 1-element wrap of {p}, nor the "
+                                      f"delegation {self.py_name}(np.asarray([{p}]))[0], nor the array branch on the wrapped argument")
                     notes.append(f"scalar/array glue ({how}): `if {ast.unparse(st.test)}` — the scalar path is the array path on the "
                                  f"1-element array; pointwise the same function")
-                    out += flatten(st.orelse)
+                    out += flatten(array_br)
                     continue
                 # try: <shape glue> except …: raise …      — the model describes the path on which nothing is raised
                 if isinstance(st, ast.Try) and not st.finalbody and not st.orelse and st.handlers \
@@ -1410,13 +1478,47 @@ class Translator:
                 if ctx["ret"] is not None:
                     ret, rettuple = ctx["ret"], ctx["rettuple"]
                 continue
-            # if fp is None: fp = default
+            # if fp is None: fp = default          (function-valued parameter with a documented default)
+            # general form (also what an expanded default-substitution helper leaves behind):
+            #     if fp is None: v = default  else: v = fp        |  if fp is not None: v = fp  else: v = default
+            # the absent path must bind exactly the declared default, the given path exactly the parameter; v is then
+            # another name of the parameter (the `_d` instance substitutes the default)
             if (isinstance(st, ast.If) and isinstance(st.test, ast.Compare) and isinstance(st.test.left, ast.Name)
-                    and st.test.left.id in fun_params and isinstance(st.test.ops[0], ast.Is)):
-                if not (len(st.body) == 1 and isinstance(st.body[0], ast.Assign) and isinstance(st.body[0].value, ast.Name)
-                        and st.body[0].value.id == fun_params[st.test.left.id] and not st.orelse):
+                    and self.tname(st.test.left.id) in fun_params and env.get(st.test.left.id) == "fun"
+                    and len(st.test.ops) == 1 and isinstance(st.test.ops[0], (ast.Is, ast.IsNot))
+                    and isinstance(st.test.comparators[0], ast.Constant) and st.test.comparators[0].value is None):
+                fp = self.tname(st.test.left.id)
+                absent, given = (st.body, st.orelse) if isinstance(st.test.ops[0], ast.Is) else (st.orelse, st.body)
+
+                def one_assign(branch, want):
+                    return (len(branch) == 1 and isinstance(branch[0], ast.Assign) and len(branch[0].targets) == 1
+                            and isinstance(branch[0].targets[0], ast.Name) and isinstance(branch[0].value, ast.Name)
+                            and self.tname(branch[0].value.id) == want) and branch[0].targets[0].id
+                tgt = one_assign(absent, fun_params[fp])
+                if not tgt or fun_params[fp] in env:
                     raise Refusal(f"default of function parameter changed: {first}")
-                notes.append(f"default {st.test.left.id} := {fun_params[st.test.left.id]}")
+                if given:
+                    if one_assign(given, fp) != tgt:
+                        raise Refusal(f"function parameter {fp}: the path on which it is given does not pass it on unchanged: {first}")
+                elif tgt != st.test.left.id:
+                    raise Refusal(f"function parameter {fp}: {tgt} is unbound when the parameter is given: {first}")
+                if tgt in env and env[tgt] != "fun":
+                    raise Refusal(f"function parameter {fp}: {tgt} is already bound: {first}")
+                env[tgt] = "fun"
+                if tgt != fp:
+                    self.talias[tgt] = fp
+                notes.append(f"default {fp} := {fun_params[fp]}" + (f" (as {tgt})" if tgt != fp else ""))
+                continue
+            # x = <function parameter>: another name of the parameter
+            if isinstance(st, ast.Assign) and len(st.targets) == 1 and isinstance(st.targets[0], ast.Name) \
+                    and isinstance(st.value, ast.Name) and env.get(st.value.id) == "fun" \
+                    and env.get(st.targets[0].id, "fun") == "fun":
+                if self.tname(st.value.id) != st.targets[0].id:
+                    self.talias[st.targets[0].id] = self.tname(st.value.id)
+                else:
+                    self.talias.pop(st.targets[0].id, None)
+                env[st.targets[0].id] = "fun"
+                notes.append(f"alias of function parameter: {first}")
                 continue
             # guard: if np.any(cmp): raise
             if isinstance(st, ast.If) and len(st.body) == 1 and isinstance(st.body[0], ast.Raise) and not st.orelse:
